@@ -239,7 +239,25 @@ fn main() {
         let a: Vec<String> = std::env::args().skip(2).collect();
         std::process::exit(rel::c05_child_main(a[0].parse().unwrap(), a[1].parse().unwrap(), a[2].parse().unwrap(), a.get(3).and_then(|x| x.parse().ok()).unwrap_or(0)));
     }
-    let args = parse_args();
+    let shard_run = std::env::args().nth(1).as_deref() == Some("shard-run");
+    let args = if shard_run {
+        // xsgmon shard-run <property> <tier> <seed> <call-no> <shard> <journal>: one shard of one
+        // `sharded` call of the property's monitor, in its own process (see report.rs)
+        let a: Vec<String> = std::env::args().skip(2).collect();
+        report::enter_child_mode(a[3].parse().unwrap(), a[4].parse().unwrap(), &a[5]);
+        report::apply_child_limits();
+        Args {
+            property: a[0].clone(),
+            tier: a[1].clone(),
+            seed: a[2].parse().unwrap(),
+            replay: None,
+        }
+    } else {
+        parse_args()
+    };
+    if std::env::var("XSG_CHILD_LIMITS").is_ok() {
+        report::apply_child_limits();
+    }
     let started = Instant::now();
     if args.property.is_empty() && std::env::args().nth(1).as_deref() != Some("mkcase") {
         eprintln!("usage: xsgmon <Cxx> [--tier quick|thorough] [--seed N] [--replay file]");
@@ -326,7 +344,13 @@ fn main() {
             std::process::exit(2);
         });
     }
-    let findings: Vec<Finding> = report::load_findings(&property);
+    let _ = report::RUN_ARGS.set((property.clone(), args.tier.clone(), args.seed));
+    // process isolation of the shards (journalled child processes) for every monitor that calls into
+    // the library in-process on generated cases; XSG_INPROC=1 falls back to threads
+    if std::env::var("XSG_INPROC").is_err() && ["C01", "C03", "C04", "C05", "C06", "C08", "C09", "C10", "C11", "C14", "C16"].contains(&property.as_str()) {
+        report::set_isolation(true);
+    }
+    let findings: Vec<Finding> = if shard_run { Vec::new() } else { report::load_findings(&property) };
     let mut witness_sigs: Vec<(Finding, Vec<String>)> = Vec::new();
     let mut witness_report = Report::new();
     let is_prog = property == "C02" || property == "C13";
@@ -459,6 +483,12 @@ fn main() {
             println!("INCONCLUSIVE: no monitor for property {}", property);
             std::process::exit(2);
         };
+    if shard_run {
+        // hand the shard's report to the parent and stop
+        let hashes = format!("{}.hashes", std::env::args().nth(7).unwrap_or_default());
+        println!("REPORT {}", report.to_child_json(&hashes));
+        std::process::exit(0);
+    }
     let mut extra = extra;
     if args.tier == "thorough" {
         let plan: Option<(&str, u64, u64)> = match property.as_str() {
